@@ -44,9 +44,10 @@ Proof. destruct l; cbn; split; congruence. Qed.
 
 (* ExtractAndVerify accepts exactly the authentic messages *)
 Lemma extract_ok m v :
-  extract_and_verify m = Ok v <-> authentic m (v_key v) (v_data v) (v_chan v) /\ (exists vr, s_body m = Enc (v_data v) (v_chan v) true vr).
+  extract_and_verify m = Ok v <->
+  authentic m (v_key v) (v_data v) (v_chan v) /\ (exists vr, s_body m = Enc (v_data v) (v_chan v) true vr) /\ att_ok (s_att m) = true.
 Proof.
-  unfold extract_and_verify, authentic. destruct m as [f b s]; cbn [s_from s_body s_sig].
+  unfold extract_and_verify, authentic. destruct m as [f b s a]; cbn [s_from s_body s_sig s_att].
   destruct b as [d c t vr|n].
   2:{ split; [discriminate|]. intros [[_ [_ [[ts [x E]] _]]] _]. discriminate. }
   destruct (is_nil c) eqn:Ec.
@@ -54,11 +55,13 @@ Proof.
     intros [[Hne [_ [[ts [x E]] _]]] _]. inversion E; subst. congruence. }
   assert (Hc : c <> []) by (intros ->; discriminate).
   destruct t; cbn [negb].
-  2:{ split; [discriminate|]. intros [_ [x E]]. inversion E. }
+  2:{ split; [discriminate|]. intros [_ [[x E] _]]. inversion E. }
   destruct f as [k|n].
   2:{ split; [discriminate|]. intros [[_ [E _]] _]. discriminate. }
   destruct s as [k' ctx b'|n].
   2:{ split; [discriminate|]. intros [[_ [_ [_ E]]] _]. discriminate. }
+  destruct (att_ok a) eqn:Ea; cbn [andb].
+  2:{ split; [discriminate|]. intros [_ [_ E]]. discriminate. }
   destruct (Nat.eqb k k' && bytes_eqb ctx (pub_ctx c) && body_eqb b' (Enc d c true vr)) eqn:E.
   - apply andb_true_iff in E as [E E3]. apply andb_true_iff in E as [E1 E2].
     apply Nat.eqb_eq in E1. apply bytes_eqb_spec in E2. apply body_eqb_spec in E3. subst.
@@ -184,42 +187,42 @@ Proof. intros H. apply c27_drop. intros k d ch Ha. destruct (H _ _ _ Ha). Qed.
 (* the forgery classes of the property text *)
 
 (* body changed after signing (data, channel, timestamp or encoding) *)
-Theorem c27_tampered st prev f b b' k ctx :
-  b' <> b -> step st (RecvPublish prev (SMsg f b' (Sig k ctx b))) = (st, []).
+Theorem c27_tampered st prev f b b' k ctx a :
+  b' <> b -> step st (RecvPublish prev (SMsg f b' (Sig k ctx b) a)) = (st, []).
 Proof.
   intros Hn. apply not_authentic_drop. intros k0 d ch [_ [_ [_ Hs]]]. cbn in Hs. inversion Hs. congruence.
 Qed.
 
 (* honest message for ch re-targeted to ch' by rewriting the inner channel *)
-Theorem c27_retargeted st prev k d ch ch' ts v ts' v' :
+Theorem c27_retargeted st prev k d ch ch' ts v ts' v' a :
   ch' <> ch ->
-  step st (RecvPublish prev (SMsg (Peer k) (Enc d ch' ts' v') (Sig k (pub_ctx ch) (Enc d ch ts v)))) = (st, []).
+  step st (RecvPublish prev (SMsg (Peer k) (Enc d ch' ts' v') (Sig k (pub_ctx ch) (Enc d ch ts v)) a)) = (st, []).
 Proof. intros Hn. apply c27_tampered. congruence. Qed.
 
 (* signed by a key other than the claimed sender *)
-Theorem c27_foreign st prev k k' ctx b b' :
-  k <> k' -> step st (RecvPublish prev (SMsg (Peer k) b (Sig k' ctx b'))) = (st, []).
+Theorem c27_foreign st prev k k' ctx b b' a :
+  k <> k' -> step st (RecvPublish prev (SMsg (Peer k) b (Sig k' ctx b') a)) = (st, []).
 Proof.
   intros Hn. apply not_authentic_drop. intros k0 d ch [_ [Hf [_ Hs]]]. cbn in Hf, Hs.
   inversion Hf; inversion Hs; congruence.
 Qed.
 
 (* signed under a context other than prefix ++ (channel of the body) *)
-Theorem c27_wrong_context st prev f d ch ts v k ctx b :
-  ctx <> pub_ctx ch -> step st (RecvPublish prev (SMsg f (Enc d ch ts v) (Sig k ctx b))) = (st, []).
+Theorem c27_wrong_context st prev f d ch ts v k ctx b a :
+  ctx <> pub_ctx ch -> step st (RecvPublish prev (SMsg f (Enc d ch ts v) (Sig k ctx b) a)) = (st, []).
 Proof.
   intros Hn. apply not_authentic_drop. intros k0 d0 ch0 [_ [_ [[ts0 [v0 Hb]] Hs]]]. cbn in Hb, Hs.
   inversion Hb; subst. inversion Hs; subst. apply Hn. reflexivity.
 Qed.
 
 (* in particular a signature made for another channel never verifies for this one *)
-Theorem c27_other_channel_context st prev f d ch ch' ts v k b :
-  ch' <> ch -> step st (RecvPublish prev (SMsg f (Enc d ch ts v) (Sig k (pub_ctx ch') b))) = (st, []).
+Theorem c27_other_channel_context st prev f d ch ch' ts v k b a :
+  ch' <> ch -> step st (RecvPublish prev (SMsg f (Enc d ch ts v) (Sig k (pub_ctx ch') b) a)) = (st, []).
 Proof. intros Hn. apply c27_wrong_context. intros E. apply pub_ctx_inj in E. congruence. Qed.
 
 (* empty channel *)
-Theorem c27_empty_channel st prev f d ts v s :
-  step st (RecvPublish prev (SMsg f (Enc d [] ts v) s)) = (st, []).
+Theorem c27_empty_channel st prev f d ts v s a :
+  step st (RecvPublish prev (SMsg f (Enc d [] ts v) s a)) = (st, []).
 Proof.
   apply not_authentic_drop. intros k0 d0 ch0 [Hne [_ [[ts0 [v0 Hb]] _]]]. cbn in Hb. inversion Hb; subst. congruence.
 Qed.
@@ -244,15 +247,16 @@ Proof.
 Qed.
 
 (* conversely an authentic, fresh message for a subscribed channel IS delivered (non-vacuity of the model) *)
-Theorem c27_accepts st prev k d ch v :
+Theorem c27_accepts st prev k d ch v a :
+  att_ok a = true ->
   ch <> [] -> has_chan ch (n_chans st) = true ->
-  let m := SMsg (Peer k) (Enc d ch true v) (Sig k (pub_ctx ch) (Enc d ch true v)) in
+  let m := SMsg (Peer k) (Enc d ch true v) (Sig k (pub_ctx ch) (Enc d ch true v)) a in
   seen_mem (msg_id m) (n_seen st) = false ->
   exists st' os, step st (RecvPublish prev m) = (st', Deliver ch k d (chan_handlers ch (n_chans st)) :: os).
 Proof.
-  intros Hne Hc m Hs.
+  intros Ha Hne Hc m Hs.
   assert (E : extract_and_verify m = Ok (VMsg k d ch)).
-  { apply (extract_ok m (VMsg k d ch)). cbn. split; [|eauto]. unfold authentic. cbn. repeat split; eauto. }
+  { apply (extract_ok m (VMsg k d ch)). cbn. split; [|split; [eauto|exact Ha]]. unfold authentic. cbn. repeat split; eauto. }
   cbn [step]. rewrite E. cbn [v_chan v_key v_data]. rewrite Hc, Hs. eauto.
 Qed.
 
